@@ -87,6 +87,8 @@ def assemble(world, main, texts, scale=1):
     else:
         out["outcome"] = "INTERNAL"
         out["detail"] = "%s@%s" % (type(err).__name__, innermost_repo_frame(err, repo))
+        if isinstance(err, RecursionError):
+            out["detail"] = "RecursionError"   # the innermost frame of a stack overflow is arbitrary
         out["message"] = str(err)[:120]
     return out
 
